@@ -59,11 +59,18 @@ KINDS = {
     "map_attr_seq": ("map", [(S("ka"), ("map", [(S("+@x"), ("seq", [S("zq1")]))]))]),
     "map_cplxkey": ("map", [(("seq", [S("zq1"), S("zq2")]), S("zq3"))]),
     "map_cplxkey_nested": ("map", [(S("ka"), ("map", [(("map", [(S("kb"), S("zq1"))]), S("zq2"))]))]),
+    # scalars JSON cannot represent
+    "inf": ("s", "float", ".inf"), "neginf": ("s", "float", "-.inf"), "nan": ("s", "float", ".nan"), "badint": ("s", "int", "abc"),
+    "seq_with_nan": ("seq", [S("zq1"), ("s", "float", ".NaN")]), "map_with_inf": ("map", [(S("ka"), S("zq1")), (S("kb"), ("s", "float", ".Inf"))]),
+    "map_with_badint": ("map", [(S("ka"), ("s", "int", "abc")), (S("kb"), S("zq2"))]),
 }
+VARIANTS = {"plain": [], "nul": ["-0"], "colors": ["-C"], "nocolors": ["-M"], "pretty": ["-P"]}
 
 
 def yaml_flow(v):
     if v[0] == "s":
+        if v[1] == "int" and not v[2].lstrip("-").isdigit():
+            return "!!int " + v[2]
         return '"%s"' % v[2] if v[1] == "str" else v[2]
     if v[0] == "seq":
         return "[" + ", ".join(yaml_flow(x) for x in v[1]) + "]"
@@ -107,6 +114,8 @@ def out_has(fmt, out, tok):
     t = tok.encode()
     if fmt == "lua" and tok == "null":
         return b"nil" in out
+    if fmt == "lua" and tok.lower() in (".inf", "-.inf", ".nan"):
+        return {".inf": b"(1/0)", "-.inf": b"(-1/0)", ".nan": b"(0/0)"}[tok.lower()] in out
     if fmt == "base64":
         return base64.b64encode(t) in out
     if fmt == "uri":
@@ -181,18 +190,20 @@ def run_init(root, job):
 
 # ---------------------------------------------------------------------------
 # (B) encoder table
-def run_enc(root, kind, fmt, nul):
+def run_enc(root, kind, fmt, variant):
+    if variant is True or variant is False:      # older replay files
+        variant = "nul" if variant else "plain"
     d = sandbox(root)
     try:
         with open(os.path.join(d, "in.yml"), "w") as f:
             f.write(yaml_flow(KINDS[kind]) + "\n")
-        rc, out, err = yq((["-0"] if nul else []) + ["-o=" + fmt, ".", "in.yml"], d)
+        rc, out, err = yq(VARIANTS[variant] + ["-o=" + fmt, ".", "in.yml"], d)
         return rc, out, err
     finally:
         shutil.rmtree(d, ignore_errors=True)
 
 
-def enc_signature(kind, fmt, nul):
+def enc_signature(kind, fmt, variant):
     """which recorded finding explains exit 0 with missing data for this cell, if any"""
     v = KINDS[kind]
     if fmt in ("csv", "tsv") and v[0] == "seq" and v[1] and v[1][0][0] == "map":
@@ -406,7 +417,7 @@ def replay(rp):
     root = tempfile.mkdtemp(prefix="c19rp_", dir=vlib.WORK)
     try:
         if rp.get("kind") == "enc":
-            rc, out, err = run_enc(root, rp["value_kind"], rp["format"], rp["nul"])
+            rc, out, err = run_enc(root, rp["value_kind"], rp["format"], rp.get("variant", rp.get("nul", False)))
             if rc != 0:
                 return True
             return all(out_has(rp["format"], out, t) for t in leaves(KINDS[rp["value_kind"]]))
@@ -579,26 +590,26 @@ def run(chk):
         chk.extra["init_cases"] = len(ijobs)
 
         # ---------------- (B) encoder table ----------------
-        cells = [(k, f, nul) for k in KINDS for f in FORMATS for nul in (False, True)]
+        cells = [(k, f, var) for k in KINDS for f in FORMATS for var in VARIANTS]
         eobs = list(pool.map(lambda c: run_enc(root, *c), cells))
         cases = []
         table = {}
-        for (k, f, nul), (rc, out, err) in zip(cells, eobs):
+        for (k, f, var), (rc, out, err) in zip(cells, eobs):
             toks = leaves(KINDS[k])
             if rc != 0:
                 cls = 0
             else:
                 cls = 1 if all(out_has(f, out, t) for t in toks) else 2
-            table["%s/%s/%s" % (k, f, "nul" if nul else "plain")] = cls
-            cases.append(("(%s, %s, %s)" % (FMT_ID[f], "true" if nul else "false", coq_node(KINDS[k])), [cls]))
-            chk.count(("enc", k, f, nul), nontrivial=KINDS[k][0] != "s" or f in ("base64", "uri"),
-                      sample={"kind": k, "format": f, "nul": nul, "class": ["error", "complete", "SWALLOWED"][cls]} if cls == 2 and len(chk.cov["samples"]) < 8 else None)
+            table["%s/%s/%s" % (k, f, var)] = cls
+            cases.append(("(%s, %s, %s)" % (FMT_ID[f], "true" if var == "nul" else "false", coq_node(KINDS[k])), [cls]))
+            chk.count(("enc", k, f, var), nontrivial=KINDS[k][0] != "s" or f in ("base64", "uri"),
+                      sample={"kind": k, "format": f, "flags": VARIANTS[var], "class": ["error", "complete", "SWALLOWED"][cls]} if cls == 2 and len(chk.cov["samples"]) < 8 else None)
             if rc != 0 and not err.strip():
-                report({"kind": "enc", "value_kind": k, "format": f, "nul": nul}, None, "encoder error without a message on stderr")
+                report({"kind": "enc", "value_kind": k, "format": f, "variant": var}, None, "encoder error without a message on stderr")
             if cls == 2:
-                report({"kind": "enc", "value_kind": k, "format": f, "nul": nul, "stdout": out.decode("utf-8", "replace")[:200]},
-                       enc_signature(k, f, nul),
-                       "exit 0 but the output of -o=%s%s for %s lacks part of the result" % (f, " -0" if nul else "", yaml_flow(KINDS[k])))
+                report({"kind": "enc", "value_kind": k, "format": f, "variant": var, "stdout": out.decode("utf-8", "replace")[:200]},
+                       enc_signature(k, f, var),
+                       "exit 0 but the output of %s -o=%s for %s lacks part of the result" % (" ".join(VARIANTS[var]), f, yaml_flow(KINDS[k])))
         mism, err = vlib.coq_mismatches(chk.workdir, "c19_enc", IMPORTS, "c19_enc_case", cases, shard=max(60, len(cases) // vlib.NCPU + 1))
         if err:
             broken.append("model evaluation failed (encoders): " + err[-500:])
@@ -740,7 +751,7 @@ def run(chk):
         checker_cmd="make -C coq Props/C19.vo (coqc 8.16.1, full .vo) + coqc work/C19/c19_*_*.v (vm_compute)",
         rule="(A) initCommand: -p x -o over auto, every formal name and alias of format.go and an unknown name, x %d file names (case, dots, "
              "directories with dots, no extension, stdin, decoderless formats), two files with different extensions; observed through the "
-             "debug log. (B) exhaustive table: %d result kinds x %d output formats x {plain, -0}; a cell is error / complete (every scalar leaf of "
+             "debug log. (B) exhaustive table: %d result kinds (incl. .inf/.nan/!!int abc) x %d output formats x {plain, -0, -C, -M, -P}; a cell is error / complete (every scalar leaf of "
              "the result is in stdout) / swallowed. (C) seeded runs of eval and eval-all over 1-3 files with 0-3 documents each, with missing "
              "files, undecodable documents, evaluation errors and unencodable results at any position x -e -n -N -r -0 -o; observables exit "
              "status, stderr non-empty, which results are on stdout; half of them (all in the thorough tier) again with an output that rejects every write "
